@@ -27,6 +27,10 @@ def main():
                 res.append((m['id'], 'STALE (pattern not found)')); print(m['id'], 'STALE pattern'); continue
             s = s[:i] + m['new'] + s[i + len(m['old']):]
             open(p, 'w').write(s)
+            if m.get('extra_include'):
+                p2 = os.path.join(scratch, m['extra_include'][0]); s2 = open(p2).read()
+                k = s2.find('#include')
+                open(p2, 'w').write(s2[:k] + m['extra_include'][1] + '\n' + s2[k:])
             env = dict(os.environ, VERIF_REPO=scratch)
             r = subprocess.run([os.path.join(VERIF, 'check'), m['prop'], '--tier', m.get('tier', 'quick'), '--no-evidence'], env=env, stdout=subprocess.PIPE, stderr=subprocess.STDOUT, text=True)
             viol = [l for l in r.stdout.splitlines() if l.startswith('VIOLATED')]
